@@ -678,11 +678,11 @@ Proof.
   intros k ins. unfold dedup. destruct (needs_dedup ins); [|reflexivity].
   destruct k.
   - destruct (find_compl [] ins) eqn:E.
-    + split; [congruence|]. destruct (find_compl_true _ _ E) as [x [H1 H2]]. simpl in *.
+    + split; [congruence|]. destruct (find_compl_true _ _ E) as [x [H1 H2]]. simpl in H1, H2.
       eapply gate_fun_andor_compl; [congruence | exact H1 | exact H2].
     + apply gate_fun_andor_set; [congruence|]. intro x. rewrite retain_In. tauto.
   - destruct (find_compl [] ins) eqn:E.
-    + split; [congruence|]. destruct (find_compl_true _ _ E) as [x [H1 H2]]. simpl in *.
+    + split; [congruence|]. destruct (find_compl_true _ _ E) as [x [H1 H2]]. simpl in H1, H2.
       eapply gate_fun_andor_compl; [congruence | exact H1 | exact H2].
     + apply gate_fun_andor_set; [congruence|]. intro x. rewrite retain_In. tauto.
   - destruct (fold_toggle ins [] (NoDup_nil _)) as [A [B C]].
